@@ -51,7 +51,8 @@ func runSolver(ctx context.Context, sd solverDef, timeout time.Duration, file st
 	secs := time.Since(start).Seconds()
 	text := out.String()
 	// skip solver warnings (e.g. about patterns) in front of the answer
-	for strings.HasPrefix(text, "WARNING") {
+	for strings.HasPrefix(text, "WARNING") || strings.HasPrefix(text, "unsupported") || strings.HasPrefix(text, "success") {
+		// "unsupported": a solver's answer to a set-option it does not know (cvc5 and :random-seed)
 		i := strings.Index(text, "\n")
 		if i < 0 {
 			break
